@@ -24,7 +24,7 @@ RULE = ("kind in {none, constant, two constants, all points, only-some points, c
         "(quick) / 8 (thorough). distinct_nontrivial = distinct (kind, channel, model) cells whose overridden trajectory differs from the "
         "model's own trajectory (so that an ignored override is visible).")
 ASSUMPTIONS = ["runspec overrides are generated for SD-DSL models only (as the property states)", "values compared at 1e-9 relative on the scenario's own decimal grid"]
-REQUIRED = {"cells_compared": 3000, "scenarios_run": 150}
+REQUIRED = {"re_registrations": 20, "cells_compared": 3000, "scenarios_run": 150}
 BUDGET_S = {"quick": 110, "thorough": 1500}
 
 P1 = [[0.0, 1.0], [3.0, 4.0], [8.0, 0.5]]
@@ -358,6 +358,18 @@ def run_case(case):
                 except Exception as e:
                     res = {}
                 results.setdefault(sname + ("+batch" if sname in results else ""), res)
+        if w is None and ch in ("dict", "file1") and o:
+            # the scenario registered again under the same name WITHOUT its overrides: nothing of the previous definition (constants, points,
+            # run specs written into its model) may survive - it must now equal the plain scenario
+            try:
+                b.register_scenarios({"sc": {}}, "sm")
+                df = b.run_scenarios(scenarios=["sc"], scenario_managers=["sm"], equations=list(names), return_format="dict")
+                counters["scenarios_run"] = counters.get("scenarios_run", 0) + 1
+                counters["re_registrations"] = counters.get("re_registrations", 0) + 1
+                eqs = df["sm"]["sc"]["equations"]
+                results["plain+sc-registered-again-without-overrides"] = {nme: {float(t): float(v) for t, v in eqs[nme].items()} for nme in names if nme in eqs}
+            except Exception as e:
+                w = dict(kind="exception:" + type(e).__name__, error=repr(e)[:300], where="re-registration")
         # ---- compare ----------------------------------------------------------
         if w is None:
             for key, got in results.items():
